@@ -62,7 +62,9 @@ JudgeClause(r) ==
 
 Class(r) ==
   LET A == FirstMat(r) IN
-  IF A = <<>> \/ ~IsMat(r.n, A) THEN "any" ELSE StructureClass(r.n, A)
+  IF A = <<>> \/ ~IsMat(r.n, A) THEN "any"
+  ELSE IF r.n > 12 THEN "large_network"      \* (the automorphism search is exponential)
+  ELSE StructureClass(r.n, A)
 
 Judge(r) ==
   IF "timeout" \in DOMAIN r THEN <<"skip:timeout", "na", "any">>
